@@ -101,25 +101,29 @@ _NOTE = ('the harness calls the public dispenso::pipeline(); stage functors cont
 reg('C27', level='model_checking', runs=c27_runs, quick_budget_s=300, thorough_budget_s=1500,
     technique='stateless model checking of the real pipeline()/LimitGatedScheduler/ConcurrentTaskSet/ThreadPool code with tagged, '
               'heap-owning items: all interleavings up to a deviation bound, per-(item,stage) exactly-once and provenance oracle',
-    level_text='pipelines of 1-5 stages over stage limits {plain function, stage(f,2), stage(f,kStageNoLimit)} (all 9 limit pairs for 2 stages; 6 '
-               '(quick) / all 27 (thorough) limit triples x {value transform, OpResult transform dropping nothing, dropping item 1} for 3 stages; '
-               'six 4-5 stage shapes mixing both transform kinds), 2-3 items, pools of 0, 1 and 2 threads. Pool 0 is deterministic (1 schedule); '
-               'pool 1: every interleaving with <=1 deviation (2 stages: <=2 in thorough; some 1- and 3-stage shapes too); pool 2: <=1 deviation '
-               'on two (quick) / seven (thorough) 2-stage shapes and three 3-stage shapes (thorough), default schedules (bound 0, all free '
-               'switches) on the rest. Oracle: when pipeline() returns every (item, stage) counter is exactly 1, or 0 downstream of the stage '
-               'that filtered the item; each stage sees exactly the path/payload its predecessor produced for that item; no stage functor is '
-               'running or starts after the return; a single-stage pipeline has been driven until it returned false.',
+    level_text='pipelines of 1-5 stages over stage limits {plain function, stage(f,2), stage(f,kStageNoLimit)}: all 3 single stages, all 9 limit '
+               'pairs, all 27 limit triples x {value transform, OpResult transform dropping nothing, dropping item 1}, all 81 / 243 limit tuples of 4 / 5 '
+               'stages (x all transform kinds in thorough), 2-3 items, pools of 0, 1 and 2 threads. Pool 0: the single schedule of every shape. Pool 2: '
+               'every shape of 1-3 stages and eight 4-5 stage shapes at bound 0 (all free switches); <=1 deviation on pp (quick) / on the single stages, '
+               'seven 2-stage and three 3-stage shapes (thorough). Pool 1: every interleaving with <=1 deviation of all 1-2 stage shapes, four (quick) / '
+               'all 27 (thorough) 3-stage limit triples x 3 transform kinds and one (six) 4-5 stage shapes; thorough: <=2 deviations on all single '
+               'stages, all 9 two-stage shapes and four 3-stage shapes. Oracle: when pipeline() returns every (item, stage) counter is exactly 1, or 0 '
+               'downstream of the stage that filtered the item; each stage sees exactly the path/payload its predecessor produced for that item; no '
+               'stage functor is running or starts after the return; a single-stage pipeline has been driven until it returned false; pipeline() '
+               'returns at all (watchdog thread on the virtual clock / step count).',
     level_note=_NOTE, design_ref='DESIGN.md section 4, C27', assumptions=MC_ASSUME, rule=_RULE,
     guards=[need_cover('filtered', 'stage_ran_inline_nested'), need_outcomes(20)])
 
 reg('C28', level='model_checking', runs=c28_runs, quick_budget_s=300, thorough_budget_s=1500,
     technique='stateless model checking of the real pipeline() code, every stage functor bracketing a scheduling point with a per-stage '
               'in-flight counter',
-    level_text='the C27 matrix (1-5 stages, limits {plain function = 1, 2, unlimited}, pools 0-2, 2-3 items, bounds as in C27; the quick tier '
-               'explores pool 2 at bound 1 on generator-unlimited/serial-sink and 2/2 shapes) with the oracle: at no moment does a stage have more '
-               'concurrent invocations than its limit (1 for a plain function), checked at every entry; the generator (and the single stage) '
-               'likewise, and the number of generator instances (empty results delivered) never exceeds its limit. Vacuity guard: some stage '
-               'with limit >= 2 really reached two concurrent invocations and two generator instances really ran.',
+    level_text='the C27 shapes (1-5 stages, limits {plain function = 1, 2, unlimited}, pools 0-2, 2-3 items) with the two-worker runs first, '
+               'because one worker plus the caller never put two invocations of one stage in flight within 2 deviations: pool 2 with <=1 deviation on '
+               'unlimited-generator/serial-sink (quick) / on the single stages, seven 2-stage and three 3-stage shapes (thorough), pool 2 at bound 0 and '
+               'pool 1 at bound 1 on everything else as in C27. Oracle: at no moment does a stage have more concurrent invocations than its limit (1 for '
+               'a plain function), checked at every entry; the generator (and the single stage) likewise, and the number of generator instances (empty '
+               'results delivered) never exceeds its limit. Vacuity guard: some stage really reached two concurrent invocations and two generator '
+               'instances really ran.',
     level_note=_NOTE, design_ref='DESIGN.md section 4, C28', assumptions=MC_ASSUME, rule=_RULE,
     guards=[need_cover('stage_concurrency_2', 'generator_instances_2'), need_outcomes(20)])
 
@@ -197,14 +201,15 @@ reg('C29', level='model_checking', runs=c29_runs, quick_budget_s=300, thorough_b
               'the engine\'s live-object registry (all modes) and LeakSanitizer (asan mode) are evaluated at the end of every execution',
     level_text='throwing stage in each position (generator, transform, sink) x throw at the first / middle / last of 3 items x stage limits '
                '{plain function, 2, unlimited} (5 (quick) / all 9 limit pairs for 2 stages; 4 / 8 three-stage shapes with value and OpResult '
-               'transforms; one 4-stage and the single-stage shape) x pools of 1 and 2 threads (and 0 for 2 stages), plus stages that throw for '
-               'every item (concurrent throwers) and two different throwing stages. Pool 1: every interleaving with <=1 deviation (quick: 3-stage '
-               'shapes at bound 0 plus five at bound 1; thorough: <=2 on six 2-stage configurations); pool 2: default schedules everywhere and '
-               '<=1 deviation on two (quick) / eight (thorough) configurations. Oracle: pipeline() throws iff a stage threw, the tag is one that '
-               'was thrown and was not thrown after another exception was already captured (= the first captured one); no (item, stage) counter '
-               'exceeds 1; at most one first-stage call per generator instance starts after the exception is visible in the task set; no '
-               'stage still running when pipeline() throws; every item payload destroyed (live-object registry, LeakSanitizer in the asan legs); '
-               'a second, non-throwing 3-stage pipeline on the same pool then satisfies the full C27 oracle and ~ThreadPool terminates.',
+               'transforms; one 4-stage and the single-stage shape) x pools of 0, 1 and 2 threads, plus a stage that throws for every item (concurrent '
+               'throwers) and two different throwing stages. Pool 1: every interleaving with <=1 deviation of all 2-stage configurations (quick: 3-stage '
+               'shapes at bound 0 plus three at bound 1; thorough: all 3-stage configurations at bound 1 and <=2 deviations on three 2-stage ones); '
+               'pool 2: bound 0 (all free switches) everywhere and <=1 deviation on one (quick) / nine (thorough) configurations; pool 0: the single '
+               'schedule. Oracle: pipeline() throws iff a stage threw, the tag is one that was thrown and was not thrown after another exception was '
+               'already captured (= the first captured one); no (item, stage) counter exceeds 1; at most one first-stage call per generator instance '
+               'starts after the exception is visible in the task set; no stage still running when pipeline() throws; pipeline() terminates (watchdog); '
+               'every item payload destroyed (live-object registry in every run, LeakSanitizer in the asan legs); a second, non-throwing 3-stage '
+               'pipeline on the same pool then satisfies the full C27 oracle (plain runs except pool 2 at bound 1) and ~ThreadPool terminates.',
     level_note=_NOTE + '; "first captured" cannot be observed directly from outside, the oracle excludes every tag whose throw statement executed '
                'while the task set already showed a captured exception',
     design_ref='DESIGN.md section 4, C29', assumptions=MC_ASSUME, rule=_RULE,
